@@ -62,7 +62,7 @@ T_Events ==
 
 T_Silent ==
   /\ l <= Len(Trace) /\ TLCSet(2, l) /\ UNCHANGED l
-  /\ \E c \in calls : Enqueue(c) \/ StopBegins(c) \/ GiveUp(c)
+  /\ \E c \in calls : Enqueue(c) \/ StopBegins(c) \/ StopEnds(c) \/ StartEffect(c) \/ GiveUp(c)
 
 T_Skip == l <= Len(Trace) /\ E.ev # "config" /\ l' = EndIdx[E.tr] + 1 /\ ResetAll(FALSE, TRUE, TRUE, 100)
 TNext == T_Config \/ T_Events \/ T_Silent \/ T_Skip
